@@ -10,6 +10,6 @@ ENext == /\ ~emitted /\ emitted' = TRUE
             /\ ndJsonSerialize(IOEnv.VECTOR_FILE, vs)
             /\ PrintT(<<"vectors", Len(vs), "patterns", Cardinality(Patterns), "first-order", Cardinality({ p \in Patterns : FOFragment(<<p>>) }),
                        "polymorphic", Cardinality({ p \in Patterns : STVNames(p) # {} }),
-                       "pos", Count("pos"), "raw", Count("raw"), "etac", Count("etac"), "etax", Count("etax"), "neg", Count("neg"), "unrel", Count("unrel")>>)
+                       "pos", Count("pos"), "raw", Count("raw"), "etac", Count("etac"), "etax", Count("etax"), "neg", Count("neg"), "unrel", Count("unrel"), "self", Count("self"), "mixed patterns", Cardinality(Mixed)>>)
 ESpec == EInit /\ [][ENext]_emitted
 =============================================================================
